@@ -7,7 +7,7 @@
 // the harness would fail or be flagged, it cannot silently pass on garbage because every asserted value is derived from
 // initialised fields only). This gives the real iterator-based code (which Verus cannot read) to the bit-precise back end.
 use super::*;
-use crate::stream_tx_segments::verif_kani_txseg::any_segments;
+use crate::stream_tx_segments::verif_kani_txseg::{any_instant, any_segments};
 use std::mem::MaybeUninit;
 use std::ptr::addr_of_mut;
 
@@ -50,3 +50,47 @@ fn unsent_data_exists_n1() { check_unsent_data_exists::<1>(); }
 #[kani::proof]
 #[kani::unwind(6)]
 fn unsent_data_exists_n2() { check_unsent_data_exists::<2>(); }
+
+fn any_t<const N: u8>() -> Timer<N> {
+    if kani::any() { Timer::Idle } else { Timer::Armed { expires_at: any_instant() } }
+}
+
+//@ harness id=timer.k.next_timer_to_poll kind=complete props=C07 tier=quick timeout=600 text="next_timer_to_poll() (real iterator code, partially initialised VirtualSocket): unless the transport is pending, the dispatcher asks to be woken at the EARLIEST armed timer - in particular no later than an armed delayed-ACK deadline; None iff nothing is armed; only the one-shot recovery-pipe timer is disarmed by the call; with the transport pending only the inactivity timer counts and nothing is disarmed"
+#[kani::proof]
+#[kani::unwind(8)]
+fn next_timer_to_poll_earliest() {
+    let (ack, rtx, ina, pipe, syn) = (any_t::<TIMER_ACK_DELAY>(), any_t::<TIMER_RETRANSMIT>(), any_t::<TIMER_INACTIVITY>(), any_t::<TIMER_RECOVERY_PIPE>(), any_t::<TIMER_SYN_ACK_RESEND>());
+    let pending: bool = kani::any();
+    let mut slot: Box<MaybeUninit<VS>> = Box::new(MaybeUninit::uninit());
+    let p: *mut VS = slot.as_mut_ptr();
+    let (r, ack2, rtx2, ina2, pipe2, syn2) = unsafe {
+        addr_of_mut!((*p).timers.ack_delay_timer).write(ack);
+        addr_of_mut!((*p).timers.retransmit).write(rtx);
+        addr_of_mut!((*p).timers.remote_inactivity_timer).write(ina);
+        addr_of_mut!((*p).timers.recovery_pipe_expiry).write(pipe);
+        addr_of_mut!((*p).timers.syn_ack_resend).write(syn);
+        addr_of_mut!((*p).this_poll.transport_pending).write(pending);
+        let r = (&mut *p).next_timer_to_poll();
+        (r, (*p).timers.ack_delay_timer, (*p).timers.retransmit, (*p).timers.remote_inactivity_timer, (*p).timers.recovery_pipe_expiry, (*p).timers.syn_ack_resend)
+    };
+    assert!(ack2 == ack && rtx2 == rtx && ina2 == ina && syn2 == syn);
+    if pending {
+        assert!(r == ina.poll_at() && pipe2 == pipe);
+    } else {
+        assert!(pipe2 == Timer::Idle);
+        let all = [ack.poll_at(), rtx.poll_at(), ina.poll_at(), pipe.poll_at(), syn.poll_at()];
+        let mut any_armed = false;
+        let mut i = 0;
+        while i < 5 {
+            if let Some(t) = all[i] { any_armed = true; assert!(r.is_some() && r.unwrap() <= t); }
+            i += 1;
+        }
+        assert!(r.is_some() == any_armed);
+        if let Some(rv) = r {
+            let mut hit = false; let mut i = 0;
+            while i < 5 { if all[i] == Some(rv) { hit = true; } i += 1; }
+            assert!(hit);
+        }
+    }
+    std::mem::forget(slot);
+}
